@@ -182,6 +182,10 @@ class SsbGraphMinimizer:
                             # There's no real end, but a loop. TODO: This could lead to real problems...
                             logger.warning("If-Branch ended on a vertex that is not a label...")
                             continue
+                        if e_on_if_bef_end["loop"] or e_on_else_bef_end["loop"]:
+                            # A branch gets there by jumping back: this is the start of a loop around the if,
+                            # not the point where the branches join after it.
+                            continue
                         end_vertex["op"].add_marker(IfEnd(current_if_id))
                         self._update_vertex_style(end_vertex)
 
